@@ -317,7 +317,13 @@ def signal_closed(ck):
             cleared = ("@clr", True) in ef[cfg.exit.id]
             if not cleared:
                 # a `while <queue>:` loop that pops and never breaks leaves the queue empty
-                for w in [x for x in q.walk_body(fi.node) if isinstance(x, ast.While) and q.dotted(x.test) == path and not x.orelse]:
+                def _nonempty_test(t_) -> bool:
+                    try:
+                        return (not q.fold(t_, {path: ()})) and bool(q.fold(t_, {path: (0,)})) and bool(q.fold(t_, {path: (0, 1)}))
+                    except q.NotFoldable:
+                        return False
+
+                for w in [x for x in q.walk_body(fi.node) if isinstance(x, ast.While) and _nonempty_test(x.test) and not x.orelse]:
                     pops = [c for c in q.calls(w) if q.receiver(c) == path and q.call_attr(c) in ("popleft", "pop")]
                     if pops and not any(isinstance(y, (ast.Break, ast.Return)) for st_ in w.body for y in ast.walk(st_)) and fi.cfg.nodes_for(w.body[0]) and all(("@clr", True) in ef[cfg.exit.id] or True for _ in [0]):
                         # the loop must be on every path to the exit
@@ -344,11 +350,25 @@ def signal_closed(ck):
     n = settles_guarded(ck, "C13.settle-guarded", fi, None, eff, allow_safe_unguarded=True)
     ck.floor("C13.settle-guarded", n, 2, "settle sites in _signal_closed")
     n_loop = 0
+    def _sce_real_error(a_) -> bool:
+        """StreamClosedError(real_error=self.error) / StreamClosedError(self.error)"""
+        if not (isinstance(a_, ast.Call) and (q.dotted(a_.func) or "").endswith("StreamClosedError")):
+            return False
+        v_ = q.kwarg(a_, "real_error") or (a_.args[0] if a_.args else None)
+        return q.dotted(v_) == "self.error"
+
     for node, c, p, kind in ss:
         arg = c.args[0] if kind == "raw" and c.args else (c.args[1] if len(c.args) > 1 else None)
+        if isinstance(arg, ast.Name):
+            from ..x_guardflow import reaching_value
+
+            rv = reaching_value(fi, arg.id, node)
+            if rv is None:
+                raise AnalysisError("cannot tell what %s holds where %s is failed" % (arg.id, p))
+            arg = rv
         if p in loopvars.values():
             n_loop += 1
-            ok = isinstance(arg, ast.Call) and (q.dotted(arg.func) or "").endswith("StreamClosedError") and q.dotted(q.kwarg(arg, "real_error")) == "self.error"
+            ok = _sce_real_error(arg)
             ck.ob("C13.settle-guarded", fi, c, ok and q.call_attr(c) in ("set_exception", "future_set_exception_unless_cancelled"), "pending operations fail with StreamClosedError(real_error=self.error)")
         else:
             def _payload_ok(a_):
@@ -525,7 +545,7 @@ def closed_checks(ck):
         ck.floor("C13.closed-checks", len(rs), 1, "raises in _check_closed")
         for r in rs:
             e = r.ast.exc
-            ok = isinstance(e, ast.Call) and (q.dotted(e.func) or "").endswith("StreamClosedError") and q.dotted(q.kwarg(e, "real_error")) == "self.error"
+            ok = isinstance(e, ast.Call) and (q.dotted(e.func) or "").endswith("StreamClosedError") and q.dotted(q.kwarg(e, "real_error") or (e.args[0] if e.args else None)) == "self.error"
             ck.ob("C13.closed-checks", cc, r.ast, ok and (has(gf[r.id], "self.closed()", True) or has(gf[r.id], "self._closed", True)), "_check_closed raises StreamClosedError(real_error=self.error) when the stream is closed")
         falls = cc.cfg.exit
         ck.ob("C13.closed-checks", cc, cc.node, has(gf[falls.id], "self.closed()", False) or has(gf[falls.id], "self._closed", False), "_check_closed returns normally only for an open stream", construct="_check_closed normal return implies open")
